@@ -61,6 +61,8 @@ pub struct InnerLocustDB {
 
 impl InnerLocustDB {
     pub fn new(opts: &Options) -> Arc<InnerLocustDB> {
+        #[cfg(locustdb_verif)]
+        crate::verif::event("RecStart", || serde_json::json!({}));
         let lru = Lru::default();
         let perf_counter = Arc::new(PerfCounter::default());
         let (storage, tables, wal_segments, wal_size) = match opts.db_path.clone() {
@@ -109,6 +111,11 @@ impl InnerLocustDB {
 
             walflush_threadpool: ThreadPool::new(opts.wal_flush_compaction_threads),
         });
+        #[cfg(locustdb_verif)]
+        {
+            crate::verif::instance_created();
+            crate::verif::event("RecTables", || locustdb.verif_state());
+        }
 
         InnerLocustDB::start_worker_threads(&locustdb);
 
@@ -119,6 +126,8 @@ impl InnerLocustDB {
                 assert_eq!(wal_segment.id, id, "WAL segments are not contiguous");
             }
             next_id = Some(wal_segment.id + 1);
+            #[cfg(locustdb_verif)]
+            let verif_segment_id = wal_segment.id;
             for (table_name, data) in wal_segment.data.into_owned().tables {
                 let _ = locustdb.create_if_empty_no_ingest(&table_name);
                 let tables = locustdb.tables.read().unwrap();
@@ -139,7 +148,11 @@ impl InnerLocustDB {
                 assert!(columns.iter().all(|(_, c)| c.len() == rows as usize));
                 table.ingest_homogeneous(columns);
             }
+            #[cfg(locustdb_verif)]
+            crate::verif::event("RecReplay", || serde_json::json!({"id": verif_segment_id}));
         }
+        #[cfg(locustdb_verif)]
+        crate::verif::event("RecUp", || locustdb.verif_state());
 
         InnerLocustDB::start_background_threads(&locustdb);
 
@@ -189,9 +202,15 @@ impl InnerLocustDB {
     fn worker_loop(locustdb: Arc<InnerLocustDB>) {
         while locustdb.running.load(Ordering::SeqCst) {
             if let Some(task) = InnerLocustDB::await_task(&locustdb) {
+                #[cfg(locustdb_verif)]
+                crate::verif::event("TaskBegin", || serde_json::json!({}));
                 task.execute();
+                #[cfg(locustdb_verif)]
+                crate::verif::event("TaskEnd", || serde_json::json!({}));
             }
         }
+        #[cfg(locustdb_verif)]
+        crate::verif::event("WorkerExit", || serde_json::json!({}));
         drop(locustdb) // Make clippy happy
     }
 
@@ -224,6 +243,8 @@ impl InnerLocustDB {
         let mut task_queue = self.task_queue.lock().unwrap();
         let max_parallelism = task.max_parallelism();
         task_queue.push_back((Arc::new(task), max_parallelism));
+        #[cfg(locustdb_verif)]
+        crate::verif::event("Schedule", || serde_json::json!({"parallelism": max_parallelism, "queue_len": task_queue.len()}));
         self.idle_queue.notify_one();
     }
 
@@ -239,7 +260,14 @@ impl InnerLocustDB {
         let mut wal_size = wal_size.lock().unwrap();
         while *wal_size > self.opts.max_wal_size_bytes {
             log::warn!("wal size limit exceeded, blocking ingestion");
+            #[cfg(locustdb_verif)]
+            crate::verif::event("IngestBlocked", || serde_json::json!({"wal_size": *wal_size}));
             wal_size = wal_condvar.wait(wal_size).unwrap();
+        }
+        #[cfg(locustdb_verif)]
+        {
+            crate::verif::event("IngestLock", || serde_json::json!({"wal_size": *wal_size}));
+            crate::verif::sync("ingest:locked");
         }
 
         let mut _meta_tables_rows = vec![];
@@ -297,6 +325,35 @@ impl InnerLocustDB {
             let meta_columns_buffer = TableBuffer::new(columns);
             events.tables.insert(table, meta_columns_buffer);
         }
+        #[cfg(locustdb_verif)]
+        {
+            crate::verif::event("IngestCatalogue", || {
+                let mut tables: Vec<serde_json::Value> = events
+                    .tables
+                    .iter()
+                    .map(|(name, tb)| {
+                        let mut cols: Vec<&String> = tb.columns().map(|(c, _)| c).collect();
+                        cols.sort();
+                        let names: Option<Vec<String>> = if name.starts_with("_meta_") {
+                            tb.columns().find_map(|(c, b)| match (&c[..], &b.data) {
+                                ("name", ColumnData::String(v)) | ("column_name", ColumnData::String(v)) => {
+                                    let mut v = v.clone();
+                                    v.sort();
+                                    Some(v)
+                                }
+                                _ => None,
+                            })
+                        } else {
+                            None
+                        };
+                        serde_json::json!({"table": name, "rows": tb.len(), "cols": cols, "names": names})
+                    })
+                    .collect();
+                tables.sort_by_key(|t| t["table"].as_str().unwrap().to_string());
+                serde_json::json!({"tables": tables})
+            });
+            crate::verif::sync("ingest:catalogued");
+        }
 
         let bytes_written_join_handle = self.storage.as_ref().map(|storage| {
             let events = events.clone();
@@ -319,11 +376,18 @@ impl InnerLocustDB {
                 .map(|(k, v)| (k, InputColumn::from_column_data(v.data, rows)))
                 .collect();
             table.ingest_homogeneous(columns);
+            #[cfg(locustdb_verif)]
+            crate::verif::sync(&format!("ingest:applied:{}", table.name()));
         }
 
         if let Some(jh) = bytes_written_join_handle {
             let bytes_written = jh.join().unwrap();
             *wal_size += bytes_written;
+        }
+        #[cfg(locustdb_verif)]
+        {
+            crate::verif::event("IngestAck", || serde_json::json!({"wal_size": *wal_size}));
+            crate::verif::sync("ingest:acked-locked");
         }
         wal_condvar.notify_all();
     }
@@ -361,8 +425,15 @@ impl InnerLocustDB {
                 table.freeze_buffer();
             }
             *wal_size = 0;
+            #[cfg(locustdb_verif)]
+            {
+                crate::verif::event("FlushFreeze", || serde_json::json!({"lo": unflushed_wal_ids.start, "hi": unflushed_wal_ids.end}));
+                crate::verif::sync("flush:freeze-locked");
+            }
             wal_condvar.notify_all();
         }
+        #[cfg(locustdb_verif)]
+        crate::verif::sync("flush:frozen");
         tracer.end_span(span_freeze_buffers);
 
         // Iterate over all tables and create new partitions from frozen buffers.
@@ -387,11 +458,15 @@ impl InnerLocustDB {
             }
         }
         tracer.end_span(span_batching);
+        #[cfg(locustdb_verif)]
+        crate::verif::sync("flush:batched");
 
         // Persist new partitions
         if let Some(storage) = self.storage.as_ref() {
             storage.persist_partitions(new_partitions, &mut tracer);
         }
+        #[cfg(locustdb_verif)]
+        crate::verif::sync("flush:parts-persisted");
 
         // Write new segments from compactions to storage and apply compaction in-memory
         let span_compaction = tracer.start_span("compaction");
@@ -428,13 +503,23 @@ impl InnerLocustDB {
             tracer.push_tracer(compaction_tracer);
         }
         tracer.end_span(span_compaction);
+        #[cfg(locustdb_verif)]
+        crate::verif::sync("flush:compacted");
 
         // Update metastore and clean up orphaned partitions and WAL segments
         if let Some(storage) = self.storage.as_ref() {
             storage.persist_metastore(unflushed_wal_ids.end, &mut tracer);
+            #[cfg(locustdb_verif)]
+            crate::verif::sync("flush:meta-persisted");
             storage.delete_orphaned_partitions(partitions_to_delete, &mut tracer);
+            #[cfg(locustdb_verif)]
+            crate::verif::sync("flush:orphans-deleted");
             storage.delete_wal_segments(unflushed_wal_ids, &mut tracer);
+            #[cfg(locustdb_verif)]
+            crate::verif::sync("flush:wal-deleted");
         }
+        #[cfg(locustdb_verif)]
+        crate::verif::event("FlushDone", || serde_json::json!({}));
 
         tracer.end_span(span_wal_flush);
 
@@ -498,6 +583,8 @@ impl InnerLocustDB {
             let (sender, receiver) = mpsc::channel();
             let mut pending_wal_flushes = self.pending_wal_flushes.0.lock().unwrap();
             pending_wal_flushes.push(sender);
+            #[cfg(locustdb_verif)]
+            crate::verif::event("ForceFlushCall", || serde_json::json!({}));
             self.pending_wal_flushes.1.notify_all();
             receiver
         };
@@ -518,6 +605,8 @@ impl InnerLocustDB {
         let mut maybe_compaction = None;
 
         if let Some(partition) = table.batch() {
+            #[cfg(locustdb_verif)]
+            crate::verif::sync(&format!("flush:registered-before-handles:{}", table.name()));
             let columns: Vec<_> = partition
                 .clone_column_handles()
                 .into_iter()
@@ -542,6 +631,11 @@ impl InnerLocustDB {
         if let Some((range, parts)) = table.plan_compaction(self.opts.partition_combine_factor) {
             maybe_compaction = Some((table.clone(), table.next_partition_id(), range, parts));
         }
+        #[cfg(locustdb_verif)]
+        crate::verif::event("FlushTable", || match &maybe_compaction {
+            Some((_, cid, range, parts)) => serde_json::json!({"table": table.name(), "batched": new_partition.is_some(), "plan": {"cid": cid, "start": range.start, "end": range.end, "parts": parts}}),
+            None => serde_json::json!({"table": table.name(), "batched": new_partition.is_some(), "plan": null}),
+        });
 
         (new_partition, maybe_compaction)
     }
@@ -568,6 +662,12 @@ impl InnerLocustDB {
         }
         let colnames = table.column_names();
         tracer.end_span(span_load_column_names);
+        #[cfg(locustdb_verif)]
+        crate::verif::event("CompactNames", || {
+            let mut names: Vec<&String> = colnames.iter().collect();
+            names.sort();
+            serde_json::json!({"table": table.name(), "cid": id, "cols": names, "parts": parts})
+        });
 
         let span_snapshot_partitions = tracer.start_span("snapshot_partitions");
         // TODO: ensure parts is sorted correctly
@@ -661,7 +761,11 @@ impl InnerLocustDB {
 
         // replace old partitions with new partition
         let span_compact_partitions = tracer.start_span("compact_partitions");
+        #[cfg(locustdb_verif)]
+        crate::verif::sync(&format!("flush:before-compact-swap:{}", table.name()));
         table.compact(id, range.start, columns, parts);
+        #[cfg(locustdb_verif)]
+        crate::verif::sync(&format!("flush:compact-swapped:{}", table.name()));
         tracer.end_span(span_compact_partitions);
 
         // write new subpartitions to disk and update in-memory metastore
@@ -678,6 +782,8 @@ impl InnerLocustDB {
             (table.name().to_string(), to_delete)
         });
         tracer.end_span(span_prepare_compact);
+        #[cfg(locustdb_verif)]
+        crate::verif::sync(&format!("flush:compact-ms:{}", table.name()));
 
         (to_delete, tracer)
     }
@@ -856,6 +962,8 @@ impl InnerLocustDB {
                 || !pending_wal_flushes.is_empty()
                 || too_many_wal_files
             {
+                #[cfg(locustdb_verif)]
+                crate::verif::event("FlushTrigger", || serde_json::json!({"wal_size": wal_size, "pending": pending_wal_flushes.len(), "too_many_wal_files": too_many_wal_files}));
                 self.wal_flush();
                 for sender in pending_wal_flushes {
                     let _ = sender.send(());
@@ -879,6 +987,8 @@ impl InnerLocustDB {
         for sender in pending_wal_flushes_mutex.lock().unwrap().drain(..) {
             sender.send(()).unwrap();
         }
+        #[cfg(locustdb_verif)]
+        crate::verif::event("WalThreadExit", || serde_json::json!({}));
     }
 
     fn log_metrics(self: Arc<InnerLocustDB>) {
@@ -971,9 +1081,46 @@ impl InnerLocustDB {
         let tables = self.tables.read().unwrap();
         let mut bytes_evicted = 0;
         while let Some(victim) = self.lru.evict() {
+            #[cfg(locustdb_verif)]
+            crate::verif::event("Evict", || serde_json::json!({"table": victim.table, "pid": victim.id, "col": victim.column}));
             bytes_evicted += tables[&victim.table].evict(&victim);
         }
         bytes_evicted
+    }
+
+    /// Read-only projection of the in-memory state (tables, partitions, catalogue, WAL cursor).
+    #[cfg(locustdb_verif)]
+    pub fn verif_state(&self) -> serde_json::Value {
+        let wal_size = self.wal_size.0.try_lock().map(|g| *g as i64).unwrap_or(-1);
+        let mut tables: Vec<serde_json::Value> = self
+            .tables
+            .read()
+            .unwrap()
+            .values()
+            .map(|t| t.verif_state())
+            .collect();
+        tables.sort_by_key(|t| t["name"].as_str().unwrap().to_string());
+        let ms = match self.storage.as_ref() {
+            Some(storage) => {
+                let ms = storage.meta_store().read().unwrap();
+                let mut parts: Vec<serde_json::Value> = ms
+                    .partitions()
+                    .map(|p| {
+                        serde_json::json!({
+                            "table": p.tablename, "id": p.id, "offset": p.offset, "len": p.len,
+                            "subs": p.subpartitions.iter().map(|s| serde_json::json!({
+                                "key": s.subpartition_key, "last_column": s.last_column,
+                                "loaded": s.loaded.load(Ordering::SeqCst)})).collect::<Vec<_>>(),
+                        })
+                    })
+                    .collect();
+                parts.sort_by_key(|p| (p["table"].as_str().unwrap().to_string(), p["id"].as_u64().unwrap()));
+                let ids = ms.unflushed_wal_ids();
+                serde_json::json!({"earliest": ids.start, "next_wal": ids.end, "parts": parts})
+            }
+            None => serde_json::Value::Null,
+        };
+        serde_json::json!({"wal_size": wal_size, "tables": tables, "ms": ms})
     }
 
     fn log_table_stats(&self) {
@@ -1006,6 +1153,8 @@ impl InnerLocustDB {
 
 impl Drop for InnerLocustDB {
     fn drop(&mut self) {
+        #[cfg(locustdb_verif)]
+        crate::verif::instance_dropped();
         info!("Stopped");
     }
 }
@@ -1087,4 +1236,12 @@ fn is_filesystem_safe(column_name: &str) -> bool {
         && column_name
             .chars()
             .all(|c| (c.is_alphanumeric() && c.is_lowercase()) || c == '_')
+}
+
+#[cfg(locustdb_verif)]
+pub fn verif_subpartition(
+    opts: &Options,
+    columns: Vec<Arc<Column>>,
+) -> (Vec<SubpartitionMetadata>, Vec<Vec<Arc<Column>>>) {
+    subpartition(opts, columns)
 }
